@@ -211,6 +211,33 @@ func (c *scriptConn) Snapshot() (pkts []packet.Packet, closed bool, dl time.Dura
 	return append([]packet.Packet(nil), c.outPkts...), c.closed, c.lastDur, c.lastKind, g
 }
 func (c *scriptConn) outCount() int { c.mu.Lock(); defer c.mu.Unlock(); return len(c.outPkts) }
+
+// WaitAckFrom: a PUBACK (4) / PUBCOMP (7) with this identifier among the packets written since index from
+func (c *scriptConn) WaitAckFrom(from int, typ byte, mid int32, d time.Duration) bool {
+	deadline := time.Now().Add(d)
+	c.mu.Lock()
+	defer c.mu.Unlock()
+	for {
+		for i := from; i < len(c.outPkts); i++ {
+			switch p := c.outPkts[i].(type) {
+			case *packet.PubAck:
+				if typ == 4 && p.MessageId == mid {
+					return true
+				}
+			case *packet.PubComp:
+				if typ == 7 && p.MessageId == mid {
+					return true
+				}
+			}
+		}
+		if c.closed || c.failW || time.Now().After(deadline) {
+			return false
+		}
+		c.mu.Unlock()
+		time.Sleep(100 * time.Microsecond)
+		c.mu.Lock()
+	}
+}
 func (c *scriptConn) FireTimeout()  { c.mu.Lock(); c.timeout = true; c.cond.Broadcast(); c.mu.Unlock() }
 func (c *scriptConn) ClientEOF()    { c.mu.Lock(); c.eof = true; c.cond.Broadcast(); c.mu.Unlock() }
 func (c *scriptConn) FailWrites()   { c.mu.Lock(); c.failW = true; c.mu.Unlock() }
